@@ -12,9 +12,10 @@
    The model follows the REPAIRED code (fixes/C15-1.patch, fixes/C15-2.patch):
      C15-1  evalImportStmt records the edge importer -> imported also when the imported module is already
             registered (the pinned code records edges only in AddModule, so the edge closing a cycle was never seen);
-     C15-2  FindElement / FindElementWithModule fall back to the current module's export table (the pinned code
-            pops a module's own methods/types from its symbol stack when its body ends, so an imported method
-            could not reach its home module's other methods and types).
+     C15-2  FindElement / FindElementWithModule consult the current module's export table for every name that is
+            not a local symbol, before the imported names (the pinned code pops a module's own methods/types from
+            its symbol stack when its body ends, so an imported method could not reach its home module's other
+            methods and types).
 
    Abstractions (stated, validated by the per-run differential check):
      - a module source is abstracted to its import statements, its top-level method/type definitions and the list of
@@ -24,7 +25,10 @@
      - externalRefs (symbol index -> module id) is stored in the symbol itself: imports are declared first in a fresh
        scope at depth 0 and are never popped, so the index-keyed map and the field agree;
      - Go map iteration orders (export table in "import all", adjacency map in the DFS) are explicit parameters;
-     - names of the global table (显示 ...) are never used as method/type names. *)
+     - names of the global table (显示 ...) are never used as method/type names;
+     - 令x = 1 on a name already declared in the same block is error 43 in the model (the pinned evalVarDeclareStmt
+       swallows that error: property C06's subject; the generator never redeclares in one block);
+     - EStart / EDone are ghost events of the model's trace (never compared with the implementation). *)
 From Coq Require Import List ZArith Bool Arith Lia.
 Import ListNotations.
 
@@ -137,13 +141,19 @@ Definition empty_scope := mkScope [] 0.
 
 Record modrec := mkMod { m_name : name; m_src : option source; m_exports : list (name * value) }.
 
+(* trace events: marker lines (observable) and two ghost events used only to state theorems *)
+Inductive ev :=
+| EMark (z : Z)        (* a marker line was printed *)
+| EStart (id : nat)    (* module id finished its imports and starts its own definitions and statements *)
+| EDone (id : nat).    (* module id's program ended normally (a library: its exports were registered) *)
+
 Record vm := mkVM {
   v_mods : list modrec;           (* ModuleGraph.modules; moduleNameMap = first index with that name *)
   v_edges : list (nat * nat);     (* ModuleGraph.graph *)
   v_cs : option nat;              (* csModuleID (None = -1) *)
   v_frames : list nat;            (* module id of every call frame, top first *)
   v_scopes : list (nat * scope);  (* valueStack *)
-  v_trace : list Z                (* marker lines printed so far, newest first *)
+  v_trace : list ev               (* events so far, newest first *)
 }.
 
 Definition init_vm := mkVM [] [] None [] [] [].
@@ -165,6 +175,7 @@ Definition E_NameNotDefined : Z := 42.
 Definition E_NameRedeclared : Z := 43.
 Definition E_AssignToConstant : Z := 44.
 Definition E_MethodNotFound : Z := 46.
+Definition E_ExactParams : Z := 53.
 Definition E_ModuleNotFound : Z := 60.
 Definition E_CircularDependency : Z := 63.
 Definition E_LibraryNotFound : Z := 64.
@@ -332,11 +343,17 @@ Fixpoint assoc_find {A} (l : list (name * A)) (x : name) : option A :=
   | (k, v) :: r => if name_eqb k x then Some v else assoc_find r x
   end.
 
-(* VM.FindElementWithModule (repaired, C15-2): scope of the current module, then its export table *)
+(* VM.FindElementWithModule (repaired, C15-2): local symbols (depth > 0) first, then the current module's own
+   methods and types (its export table), then the imported names (depth 0) *)
 Definition find_with_module (st : vm) (x : name) : option (value * nat) :=
+  let own := assoc_find (m_exports (get_mod st (cur_id st))) x in
   match scope_lookup (sc_syms (cur_scope st)) x with
-  | Some y => Some (y_val y, match y_ext y with Some m => m | None => cur_id st end)
-  | None => match assoc_find (m_exports (get_mod st (cur_id st))) x with
+  | Some y =>
+      match (if Nat.eqb (y_depth y) 0 then own else None) with
+      | Some v => Some (v, cur_id st)
+      | None => Some (y_val y, match y_ext y with Some m => m | None => cur_id st end)
+      end
+  | None => match own with
             | Some v => Some (v, cur_id st)
             | None => None
             end
@@ -392,7 +409,7 @@ Definition in_exec_block (st : vm) (this : option value) (run : vm -> res * vm) 
 
 Definition exec_stmt_with (callee : vm -> list stmt -> res * vm) (st : vm) (s : stmt) : res * vm :=
   match s with
-  | SMark z => (Ok, emit st z)
+  | SMark z => (Ok, emit st (EMark z))
   | SRef x => match find_element st x with Some _ => (Ok, st) | None => (Err E_NameNotDefined, st) end
   | SAssign x =>
       match scope_set (sc_syms (cur_scope st)) x VNum with
@@ -442,6 +459,7 @@ Definition exec_stmt_with (callee : vm -> list stmt -> res * vm) (st : vm) (s : 
                   end
               end
           end
+      | Some VNum => (Err E_ExactParams, st)          (* a number is constructable, with exactly one parameter *)
       | Some _ => (Err E_InvalidParamType, st)
       end
   end.
@@ -520,6 +538,7 @@ Section Load.
     let n := i_name imp in
     match fst (parse_lib_name n) with
     | LibStd =>
+        let fresh := match find_module st n with Some _ => false | None => true end in
         let '(st1, id) := allocate_module st n None in
         match lib_find libs n with
         | None => (Err E_LibraryNotFound, st1)
@@ -527,7 +546,8 @@ Section Load.
             let st2 := push_frame st1 id in
             let st3 := add_lib_exports st2 id exps in
             let st4 := pop_frame st3 in
-            import_symbols st4 id (i_items imp)
+            let st5 := if fresh then emit st4 (EDone id) else st4 in      (* ghost *)
+            import_symbols st5 id (i_items imp)
         end
     | LibCustom =>
         let loaded :=
@@ -575,34 +595,42 @@ Section Load.
         end
     end.
 
+  (* the import block of evalProgram: stop at the first failing import *)
+  Fixpoint imports_loop (ld : nat -> source -> vm -> res * vm) (st : vm) (l : list import) : res * vm :=
+    match l with
+    | [] => (Ok, st)
+    | imp :: rest =>
+        let '(r, st') := eval_import_with ld st imp in
+        match r with
+        | Ok => imports_loop ld st' rest
+        | other => (other, st')
+        end
+    end.
+
+  (* evalExecBlock: BeginScope; evalStmtBlock: definitions; evalPureStmtBlock: BeginScope; statements; EndScope x2 *)
+  Definition program_tail (f : nat) (id : nat) (src : source) (st1 : vm) : res * vm :=
+    let st2 := set_cur_scope (emit st1 (EStart id)) (begin_scope (cur_scope st1)) in
+    let '(r2, st3) := declare_defs st2 (cur_id st2) (s_defs src) in
+    match r2 with
+    | Ok =>
+        let st4 := set_cur_scope st3 (begin_scope (cur_scope st3)) in
+        let '(r3, st5) := exec_stmts f st4 (s_body src) in
+        let st6 := set_cur_scope st5 (end_scope (end_scope (cur_scope st5))) in
+        match r3 with
+        | Ok => (Ok, emit st6 (EDone id))
+        | other => (other, st6)
+        end
+    | other => (other, st3)
+    end.
+
   (* evalProgram of module [id] on its (already pushed) frame *)
   Fixpoint run_program (fuel : nat) (id : nat) (src : source) (st : vm) {struct fuel} : res * vm :=
     match fuel with
     | O => (OutOfFuel, st)
     | S f =>
-        let '(r, st1) :=
-          (fix imports (st : vm) (l : list import) : res * vm :=
-             match l with
-             | [] => (Ok, st)
-             | imp :: rest =>
-                 let '(r, st') := eval_import_with (run_program f) st imp in
-                 match r with
-                 | Ok => imports st' rest
-                 | other => (other, st')
-                 end
-             end) st (s_imports src) in
+        let '(r, st1) := imports_loop (run_program f) st (s_imports src) in
         match r with
-        | Ok =>
-            (* evalExecBlock: BeginScope; evalStmtBlock: definitions; evalPureStmtBlock: BeginScope; statements *)
-            let st2 := set_cur_scope st1 (begin_scope (cur_scope st1)) in
-            let '(r2, st3) := declare_defs st2 (cur_id st2) (s_defs src) in
-            match r2 with
-            | Ok =>
-                let st4 := set_cur_scope st3 (begin_scope (cur_scope st3)) in
-                let '(r3, st5) := exec_stmts f st4 (s_body src) in
-                (r3, set_cur_scope st5 (end_scope (end_scope (cur_scope st5))))
-            | other => (other, st3)
-            end
+        | Ok => program_tail f id src st1
         | other => (other, st1)
         end
     end.
@@ -624,6 +652,13 @@ End Load.
 
 (* ------------------------------------------------------------------ observation used by the correspondence check *)
 
+Fixpoint marks_of (tr : list ev) : list Z :=
+  match tr with
+  | [] => []
+  | EMark z :: r => z :: marks_of r
+  | _ :: r => marks_of r
+  end.
+
 Definition id_exports (l : list (name * value)) := l.
 Definition id_nodes (l : list nat) := l.
 
@@ -638,4 +673,4 @@ Definition encode_res (r : res) : list Z :=
 (* result code(s) followed by the marker trace in printing order *)
 Definition observe (fs : filesys) (libs : libraries) (mainfile : path) (fuel : nat) : list (list Z) :=
   let '(r, st) := run_main fs libs id_exports id_nodes fuel mainfile in
-  [encode_res r; rev (v_trace st)].
+  [encode_res r; rev (marks_of (v_trace st))].
